@@ -13,3 +13,4 @@ import CC.Thm.C06
 #print axioms CC.Thm.C06.jh_bitlen_check
 #print axioms CC.Thm.C06.source_kernels_match
 #print axioms CC.Thm.C06.source_glue_match
+#print axioms CC.Thm.C06.source_compressor_match
